@@ -1,2 +1,67 @@
-(* C05 -- content-line join/split.  Statements only (grown as proofs are added). *)
-Require Import Lib.Base Gen.Gen_parser Model.Params Model.Contentline.
+(* C05 -- content-line join/split are inverse; values cannot inject structure.  Statements only.
+   [from_parts name ps sorted v] renders NAME;params:value-text (Escape AssertionError when the
+   line would contain LF: Contentline.__new__), [parts] is Contentline.parts as written.
+   [line_value_path v] = unescape_string (escape_string v) is what parts() does to value text.
+   Guards (Model/Contentline.v): [head_safe] -- the rendered name+parameter section including
+   the colon contains none of the patterns parts() replaces (backslash before , : ; backslash);
+   [params_unesc_safe] -- no parameter value contains placeholder text %2C %3A %3B %5C;
+   [value_safe] -- the value text contains none of the eight.  Outside them the property fails:
+   C05_injection_refuted / C05_value_refuted are the known findings C05-F1 / C05-F2. *)
+Require Import Lib.Base Lib.Chain Gen.Gen_parser Model.Text Model.Params Model.Fold Model.Contentline.
+Require Import Proofs.ParamsProofs Proofs.ContentlineProofs.
+
+(* splitting a joined line gives back name, parameters and value text *)
+Theorem C05_join_split : forall name ps sorted v line,
+  is_token name = true -> wf_params ps = true ->
+  head_safe name ps sorted = true -> params_unesc_safe ps = true -> value_safe v = true ->
+  from_parts name ps sorted v = Ok line ->
+  parts line = Ok (name, canon_params (order_params sorted ps), v).
+Proof. exact join_split. Qed.
+Print Assumptions C05_join_split.
+
+(* WHATEVER the value text contains (no hypothesis on v): the line is refused, or it splits into
+   exactly the intended name and parameters and no line break was emitted *)
+Theorem C05_no_injection : forall name ps sorted v,
+  is_token name = true -> wf_params ps = true ->
+  head_safe name ps sorted = true -> params_unesc_safe ps = true ->
+  from_parts name ps sorted v = Escape (s2l "AssertionError") \/
+  exists line, from_parts name ps sorted v = Ok line /\ no_chr 10 line = true /\
+    parts line = Ok (name, canon_params (order_params sorted ps), line_value_path v).
+Proof. exact no_injection. Qed.
+Print Assumptions C05_no_injection.
+
+(* the guards hold whenever no parameter value contains a backslash or a percent sign *)
+Theorem C05_no_injection_plain : forall name ps sorted v,
+  is_token name = true -> wf_params ps = true -> params_plain ps = true ->
+  from_parts name ps sorted v = Escape (s2l "AssertionError") \/
+  exists line, from_parts name ps sorted v = Ok line /\ no_chr 10 line = true /\
+    parts line = Ok (name, canon_params (order_params sorted ps), line_value_path v).
+Proof. exact no_injection_plain. Qed.
+Print Assumptions C05_no_injection_plain.
+
+(* obligations on the generated replace chains used by the proofs *)
+Theorem C05_chain_facts :
+  pats_nonempty escape_string_chain = true /\ pats_nonempty unescape_string_chain = true /\
+  forallb (fun st : stage => negb (mem_chr 58 (removelast (fst st)))) escape_string_chain = true /\
+  forallb (fun f : list N => match f with a :: _ => a =? 92 | [] => false end) forb_esc = true /\
+  forallb (fun f : list N => match f with a :: _ => a =? 37 | [] => false end) forb_unesc = true.
+Proof. exact (conj esc_chain_nonempty (conj unesc_chain_nonempty (conj esc_chain_colon (conj esc_chain_first unesc_chain_first)))). Qed.
+
+(* known findings: an extra parameter Q is read back; value text is altered *)
+Theorem C05_injection_refuted : exists name ps v line,
+  is_token name = true /\ wf_params ps = true /\ from_parts name ps true v = Ok line /\
+  parts line = Ok (name, [(s2l "A", PStr (s2l "x:p")); (s2l "Q", PStr (s2l "r"))], s2l "z").
+Proof. exact injection_refuted. Qed.
+Theorem C05_value_refuted : exists name v line, is_token name = true /\ from_parts name [] true v = Ok line /\
+  parts line = Ok (name, [], s2l "a,b") /\ v <> s2l "a,b".
+Proof. exact value_refuted. Qed.
+
+(* non-vacuity: delimiters, quotes, BEGIN:/END: text and CR in the value; quoted parameters *)
+Example C05_nonvacuous :
+  let ps := [(s2l "CN", PStr (s2l "a;b:c")); (s2l "x", PList [s2l "p,q"; s2l "r"])] in
+  let v := s2l "BEGIN:VEVENT" ++ [13] ++ s2l ";X=1:""q"",\n" in
+  wf_params ps = true /\ head_safe (s2l "ATTENDEE") ps true = true /\ params_unesc_safe ps = true /\
+  value_safe v = true /\
+  exists line, from_parts (s2l "ATTENDEE") ps true v = Ok line /\
+               parts line = Ok (s2l "ATTENDEE", canon_params (order_params true ps), v).
+Proof. vm_compute. repeat split; try reflexivity. eexists. split; reflexivity. Qed.
